@@ -278,6 +278,8 @@ def run(ctx, rep):
     units.r15b(ctx, rep)
     r15c(ctx, rep)
     r15d(ctx, rep)
+    from . import C14
+    C14.r14g(ctx, rep, rule="R15e", only=STRMOD, floor=1)
     rep.not_decided += ["agreement of each procedure with a Vec<char> model (value-level)",
                         "that mutators change exactly the addressed characters",
                         "panic sites of these files (C06's inventory)"]
